@@ -155,6 +155,13 @@ def ifelse_panel():
         cases.append(dict(kind='c04_l2', script=lines, vars={'c0': vals[0], 'c1': vals[1]}, array=['p', 'q'], expected_trace=one * 2 + 'Z'))
         lines = ['if true', 'if probe a ${c0}', 'emit A', 'elseif probe b ${c1}', 'emit B', 'end', 'emit Y', 'else', 'emit D', 'end', 'emit Z']
         cases.append(dict(kind='c04_l2', script=lines, vars={'c0': vals[0], 'c1': vals[1]}, array=[], expected_trace='a' + ('A' if vals[0] == 'true' else 'b' + ('B' if vals[1] == 'true' else '')) + 'YZ'))
+    # while loops: the condition is evaluated once per pass and once more to leave
+    for endkw in ('end', 'end_while'):
+        cases.append(dict(kind='c04_l2', script=['while probe a ${w}', 'emit A', 'w = set false', endkw, 'emit Z'], vars={'w': 'true'}, array=[], expected_trace='aAaZ', timeout=10))
+        cases.append(dict(kind='c04_l2', script=['while probe a ${w}', 'emit A', endkw, 'emit Z'], vars={'w': 'false'}, array=[], expected_trace='aZ'))
+        cases.append(dict(kind='c04_l2', script=['while probe a ${w}', 'while probe b ${v}', 'emit B', 'v = set false', endkw, 'emit A', 'w = set false', 'end', 'emit Z'], vars={'w': 'true', 'v': 'true'}, array=[],
+                          expected_trace='abBbAaZ'))
+        cases.append(dict(kind='c04_l2', script=['for i in ${arr}', 'v = set true', 'while probe b ${v}', 'emit B', 'v = set false', endkw, 'end', 'emit Z'], vars={}, array=['p', 'q'], expected_trace='bBbbBbZ'))
     return cases
 
 
@@ -162,13 +169,16 @@ def replayer(v):
     """run the program natively: every block keyword gets a trivially true/empty header and each line records itself"""
     if v.get('kind') == 'lemma':
         n = 0
+        import subprocess
         for case in ifelse_panel():
-            got = replayer(case); n += 1
+            try: got = replayer(case)
+            except subprocess.TimeoutExpired: got = (True, 'the native run does not finish within the time limit (the reference run has %d steps)' % len(case['expected_trace']))
+            n += 1
             if got[0]: v['native'] = case.get('native'); v['case'] = {k: x for k, x in case.items() if k != 'native'}; return (True, 'chain %r with %r: %s' % (' | '.join(case['script']), case['vars'], got[1]))
-        return (False, '%d if / elseif / else chains run as the abstract machine natively' % n)
+        return (False, '%d if / elseif / else chains and while loops run as the abstract machine natively' % n)
     if v.get('kind') == 'c04_l2':
         script = 'arr = array %s\n' % ' '.join(v['array']) + '\n'.join(v['script'])
-        out = H.replay(dict(mode='scripted_sdk', script=script, vars=v['vars'], recorders=['emit'], recorder_output='', probes=['probe'])); v['native'] = out
+        out = H.replay(dict(mode='scripted_sdk', script=script, vars=v['vars'], recorders=['emit'], recorder_output='', probes=['probe']), timeout=v.get('timeout', 60)); v['native'] = out
         if out.get('panic'): return (True, 'native panic')
         if not out.get('ok'): return (True, 'native run failed: %r' % (out.get('error'),))
         trace = ''.join((l['arguments'][0] if l['command'] == 'probe' else ''.join(l['arguments'])) for l in out.get('log', []))
@@ -203,6 +213,7 @@ def main(tier, seed):
     nprog = 144 if tier == 'quick' else 600
     seeds = [seed * 100000 + i for i in range(nprog)]
     chk.job(job_ifelse_steps, 'step/if, elseif, else')
+    chk.job(job_while_steps, 'step/while, end_while')
     for gi in range(12): chk.job(job_runs, 'L2:programs/%d' % gi, seeds=seeds[gi::12], depth=2 if tier == 'quick' else 3, size=7 if tier == 'quick' else 10)
     chk.bounds = dict(layer1='opener at line 0 followed by <= %d symbolic lines, nesting <= %d, every alias / full-name spelling of every block keyword' % (n - 1, D),
                       layer2='%d generated well-nested programs (if/elseif/else, while, for-in, emit, set), each run for every assignment of its condition variables and array length; array items symbolic' % nprog)
@@ -525,4 +536,62 @@ def job_ifelse_steps(ctx, jr):
             jr.symex_time += time.time() - t0
             res = discharge_known(e, jr, PID, {}, lambda m, o=None, cmd=cmd: dict(kind='lemma', level='ifelse', step=cmd))
             witness(jr, e, '%s lemma: the branch is skipped because an earlier one ran' % cmd, zand(rs.g, taken) if cmd != 'if' else zand(rs.g, cond_false, k >= 1), lambda m, o=None: dict(kind='lemma', level='ifelse'))
+            H.finish_job(jr, e, res)
+
+
+WHM = 'sdk::std::flowcontrol::while_mod'
+
+
+def job_while_steps(ctx, jr):
+    """while and end_while as single steps from an arbitrary call-info stack, block boundaries and condition value arbitrary:
+    while: the body runs iff the condition holds, otherwise control goes behind the end of the block; end_while: back to the while line
+    (where the condition is evaluated again). A loop of any number of passes is the iteration of these two steps."""
+    from mirsym.harness import NotRecognised
+    jr.bounds = dict(call_info_stack='0..1 arbitrary entries below', condition='arbitrary result', claim='one-step lemmas (DESIGN.md 8.20)')
+    CONT, GOTO, ERR = 0, 1, 2
+
+    def goto_is(rv, line): return zand(zeq(rv.d, GOTO), zeq(rv.p[GOTO][1].d, 1), zeq(rv.p[GOTO][1].p[1][0], line)) if GOTO in rv.p else False
+    for cmd in ('while', 'end_while', 'end_while without loop'):
+        for below in (0, 1):
+            e = ctx.engine(unwind=8, max_rec=6); e.int_digits = 2; t0 = time.time()
+            st = State(True, {}); st.m[(0, 'state')] = M([])
+            ws = e.fresh_int('W.start', 0, 40); we = e.fresh_int('W.end', 0, 60); e.assume(ws < we)
+            Wv = T([ws, we], WHM + '::WhileMetaInfo')
+            def store(meta):
+                st.m[(0, 'ci')] = T([meta, S(0, [])], WHM + '::CallInfo')
+                e.run_call(WHM + '::store_call_info', st, [P(0, 'ci'), P(0, 'state')], 'sdk')
+            others = []
+            for b_ in range(below):
+                os_ = e.fresh_int('below.start', 0, 40); oe = e.fresh_int('below.end', 0, 60); e.assume(z3.And(os_ < oe, oe != we))
+                others.append((os_, oe)); store(T([os_, oe], WHM + '::WhileMetaInfo'))
+            if cmd == 'end_while': store(Wv)
+            st.m[(0, 'vars')] = M([]); st.m[(0, 'cmds')] = T([M([]), M([])], 'types::command::Commands'); st.m[(0, 'env')] = T([Opaque('out'), Opaque('err'), e.alloc(st, False)], 'types::env::Env')
+            ck = e.fresh_int('condition', 0, 2); mk = e.fresh_bool('meta.err'); calls = []
+            e.hooks[WHM + '::get_or_create_while_meta_info_for_line'] = lambda eng, st1, a, callee: (calls.append((st1.g, a[0])), E('std::result::Result', zite(mk, 1, 0), {0: [Wv], 1: [mk_str('no end')]}))[1]
+            e.hooks['utils::condition::eval_condition'] = lambda eng, st1, a, callee: E('std::result::Result', zite(zeq(ck, 2), 1, 0), {0: [zeq(ck, 1)], 1: [mk_str('bad condition')]})
+            ty = WHM + ('::WhileCommand' if cmd == 'while' else '::EndWhileCommand')
+            f = e.find_method(ty, 'Command', 'run', 'sdk')
+            if f is None: raise NotRecognised('no run impl for ' + ty)
+            line = ws if cmd == 'while' else we
+            ctxv = T([V(1 if cmd == 'while' else 0, [mk_str('c')]), P(0, 'state'), P(0, 'vars'), none(), PV(V(0, [])), P(0, 'cmds'), line, P(0, 'env')], 'types::command::CommandInvocationContext')
+            rs, rv = e.call_fn(f, st, [PV(T([mk_str('std::flowcontrol')], ty)), ctxv])
+            if rs is None: raise Abort('%s never returns' % cmd)
+            obs = []
+            if cmd == 'while':
+                for g_, ln in calls: obs.append((g_, zeq(ln, ws), 'the block boundaries are looked up for the line of the while'))
+                obs.append((zand(rs.g, mk), zor(zeq(rv.d, ERR), zeq(rv.d, 3)), 'a loop without end is an error or a crash, never a silent run'))
+                obs.append((zand(rs.g, znot(mk), zeq(ck, 1)), zeq(rv.d, CONT), 'the condition holds: control falls into the body'))
+                obs.append((zand(rs.g, znot(mk), zeq(ck, 0)), goto_is(rv, we + 1), 'the condition fails: control goes behind the end of the loop'))
+                obs.append((zand(rs.g, znot(mk), zeq(ck, 2)), zeq(rv.d, ERR), 'an invalid condition is the error result'))
+                r_ = e.run_call(WHM + '::pop_call_info_for_line', rs, [we, P(0, 'state')], 'sdk')
+                obs.append((zand(rs.g, znot(mk), zeq(ck, 1)), zand(zeq(r_.d, 1), deep_eq(r_.p[1][0].f[0], Wv)) if 1 in r_.p else False, 'the end line of the loop will find its way back'))
+            elif cmd == 'end_while':
+                obs.append((rs.g, goto_is(rv, ws), 'the end of the body goes back to the while line, where the condition is evaluated again'))
+                r_ = e.run_call(WHM + '::pop_call_info_for_line', rs, [we, P(0, 'state')], 'sdk')
+                obs.append((rs.g, zand(zeq(r_.d, 1), deep_eq(r_.p[1][0].f[0], Wv)) if 1 in r_.p else False, 'the loop stays registered for its next pass'))
+            else:
+                obs.append((rs.g, zeq(rv.d, ERR), 'an end_while that closes no running loop is an error'))
+            for g, cnd, msg in obs: e.obligations.append(Obligation(g, cnd, 'C04 %s lemma (%d below): %s' % (cmd, below, msg), 'assert', 'oracle'))
+            jr.symex_time += time.time() - t0
+            res = discharge_known(e, jr, PID, {}, lambda m, o=None, cmd=cmd: dict(kind='lemma', level='while', step=cmd))
             H.finish_job(jr, e, res)
